@@ -43,13 +43,21 @@ use std::{
     fmt::Display,
     hash::Hash,
     ops::Deref,
-    sync::{Arc, Weak},
+    sync::{Arc, Mutex, MutexGuard, Weak},
 };
 
 #[cfg(not(gdsl_verif))]
 use std::sync::RwLock;
 #[cfg(gdsl_verif)]
 use crate::verif_hook::RwLock;
+
+/// Serialises the operations that update two nodes (`connect`, `try_connect`,
+/// `disconnect`, `isolate`), so that concurrent callers observe them as atomic.
+static MUTATION: Mutex<()> = Mutex::new(());
+
+fn mutation_guard() -> MutexGuard<'static, ()> {
+    MUTATION.lock().unwrap_or_else(|e| e.into_inner())
+}
 
 enum Transposition {
     Outbound,
@@ -244,6 +252,11 @@ where
     /// assert!(n1.is_connected(n2.key()));
     /// ```
     pub fn connect(&self, other: &Self, value: E) {
+        let _guard = mutation_guard();
+        self.connect_unlocked(other, value)
+    }
+
+    fn connect_unlocked(&self, other: &Self, value: E) {
         self.inner
             .2
             .write()
@@ -282,10 +295,11 @@ where
     /// }
     /// ```
     pub fn try_connect(&self, other: &Self, value: E) -> Result<(), Error> {
+        let _guard = mutation_guard();
         if self.is_connected(other.key()) {
             Err(Error::EdgeAlreadyExists)
         } else {
-            self.connect(other, value);
+            self.connect_unlocked(other, value);
             Ok(())
         }
     }
@@ -313,6 +327,7 @@ where
     /// assert!(!n1.is_connected(n2.key()));
     /// ```
     pub fn disconnect(&self, other: &K) -> Result<E, Error> {
+        let _guard = mutation_guard();
         match self.find_outbound(other) {
             Some(other) => {
                 let edge = self.inner.2.write().unwrap().remove_outbound(other.key())?;
@@ -351,6 +366,7 @@ where
     /// assert!(n1.is_orphan());
     /// ```
     pub fn isolate(&self) {
+        let _guard = mutation_guard();
         for Edge(_, v, _) in self.iter_out() {
             v.inner
                 .2
